@@ -12,7 +12,7 @@ import svm
 PROPERTY = 'C13'
 RULE = ('String constants: each of the 256 byte values alone, ordered pairs (quick: all pairs involving one of '
         '\\ " \' LF CR NUL 0x7f 0x80 0xff plus a seeded sample; thorough: all 65536), Hypothesis strings of length 0..64, '
-        'spelled with \\xNN escapes, named escapes or raw text; character literals for every value (raw where printable, '
+        'spelled with \\xNN escapes, named escapes or raw text; string and character literals whose characters are all written raw (every control character except line breaks, U+0080-U+00FF, Unicode line/paragraph separators and spaces, BMP and astral boundaries, Hypothesis text) denoting their UTF-8 encoding; character literals for every value (raw where printable, '
         'named escape, \\xNN). Constant arrays of int/byte/bool/string, lengths 0..40, boundary element values, as const '
         'global, mutable global, const local, mutable local and call argument, several per program including '
         'prefix/zero-padded/identical siblings. Oracles: (i) the emitted assembly assembles on the strict assembler; '
@@ -113,6 +113,62 @@ def check_strings(stats, strings, style, ws):
             want.append(s)
     if sorted(stored) != sorted(want):
         return 'const section holds string constants %r, expected %r' % (sorted(stored)[:4], sorted(want)[:4])
+    return None
+
+
+RAW_POINTS = ([c for c in range(0, 0x20) if c not in (0x0a, 0x0d)] + [0x7f] + list(range(0x80, 0x100)) +
+              [0x100, 0x17f, 0x3a9, 0x7ff, 0x800, 0x1680, 0x180e, 0x2000, 0x200a, 0x200b, 0x2028, 0x2029, 0x202f, 0x205f, 0x2060, 0x3000,
+               0xd7ff, 0xe000, 0xfeff, 0xfffd, 0xffff, 0x10000, 0x1f30e, 0x10ffff])
+
+
+def check_raw_text(stats, texts, ws):
+    """String literals whose characters are all written raw in the source (no escapes): every character other than
+    `"`, `\\` and a line break denotes its own UTF-8 encoding (README: string type, "Nominally utf-8 encoded")."""
+    strings = [t.encode('utf-8') for t in texts]
+    src = STRING_HELPER + 'empty @is_you() {\n' + ''.join('  p("%s");\n' % t for t in texts) + '}\n'
+    r, err = run_prog(src, ws)
+    stats.evaluated(len(texts))
+    stats.cls('strings_rawtext', len(texts))
+    for t, s in zip(texts, strings):
+        if nontrivial_bytes(s):
+            stats.nt('t:%s:%d' % (s.hex(), ws))
+    if err:
+        # find the offending literal for the message
+        for t in texts:
+            r1, e1 = run_prog(STRING_HELPER + 'empty @is_you() {\n  p("%s");\n}\n' % t, ws)
+            if e1:
+                return 'raw string literal %r (code points %s): %s' % (t, [hex(ord(c)) for c in t], e1)
+        return 'raw string literals: %s' % err
+    exp = b''.join(str(len(s)).encode() + b':' + s + b'|' + s + b'#' for s in strings)
+    if r.outcome.startswith('asm_error'):
+        return 'output does not assemble (%s) for raw strings like %r' % (r.outcome, texts[:3])
+    if r.out != exp or not r.won:
+        pos = 0
+        bad = None
+        for t, s in zip(texts, strings):
+            e = str(len(s)).encode() + b':' + s + b'|' + s + b'#'
+            if r.out[pos:pos + len(e)] != e:
+                bad = (t, r.out[pos:pos + len(e) + 4])
+                break
+            pos += len(e)
+        return 'raw string literal %r printed as %r (ws %d; flags %r)' % (bad and bad[0], bad and bad[1], ws, r.flags)
+    return None
+
+
+def check_raw_chars(stats, points, ws):
+    """Character literals written raw: one-byte code points other than `'`, `\\`, line breaks."""
+    src = 'empty @is_you() {\n' + ''.join("  write('%s' is int); write(';');\n" % chr(c) for c in points) + '}\n'
+    r, err = run_prog(src, ws)
+    stats.evaluated(len(points))
+    stats.cls('chars_rawtext', len(points))
+    for c in points:
+        if nontrivial_bytes([c]):
+            stats.nt('rc:%d:%d' % (c, ws))
+    if err:
+        return 'raw char literals: %s' % err
+    exp = b''.join(str(c).encode() + b';' for c in points)
+    if r.out != exp or not r.won:
+        return 'raw char literals printed as %r..., expected %r...; flags %r' % (r.out[:60], exp[:60], r.flags)
     return None
 
 
@@ -280,7 +336,7 @@ FORMS = ['const_global', 'mut_global', 'const_local', 'mut_local', 'argument']
 
 
 def shards(tier):
-    out = [('single', 0), ('chars', 0)]
+    out = [('single', 0), ('chars', 0), ('rawtext', 0), ('rawtext', 1)]
     out += [('pairs', k) for k in range(4)]
     out += [('rand_strings', k) for k in range(3)]
     out += [('arrays', el, k) for el in ('int', 'byte', 'bool', 'string') for k in range(2)]
@@ -299,6 +355,37 @@ def run_shard(desc, seed, tier):
                     stats.violation({'kind': 'strings', 'value': [[bytes([b]).hex() for b in range(256)], style, ws], 'message': m, 'signature': 'single'})
         stats.exhaustive = True
         stats.sample({'kind': 'every single-byte string', 'styles': ['hex', 'named', 'raw']})
+    elif kind == 'rawtext' and desc[1] == 0:
+        # every interesting code point alone, doubled, and between ASCII neighbours; raw char literals
+        for ws in (2, 4):
+            texts = []
+            for c in RAW_POINTS:
+                ch = chr(c)
+                texts += [ch, ch + ch, 'a' + ch + 'b']
+            for i in range(0, len(texts), 120):
+                m = check_raw_text(stats, texts[i:i + 120], ws)
+                if m:
+                    stats.violation({'kind': 'rawtext', 'value': [texts[i:i + 120], ws], 'message': m, 'signature': 'rawtext'})
+            pts = [c for c in range(0, 0x80) if c not in (0x0a, 0x0d, 0x27, 0x5c)]
+            m = check_raw_chars(stats, pts, ws)
+            if m:
+                stats.violation({'kind': 'rawchars', 'value': [pts, ws], 'message': m, 'signature': 'rawchars'})
+        stats.exhaustive = True
+        stats.sample({'kind': 'raw (unescaped) characters in literals', 'code_points': [hex(c) for c in RAW_POINTS[:40]]})
+    elif kind == 'rawtext':
+        alphabet = st.one_of(st.sampled_from([chr(c) for c in RAW_POINTS]),
+                             st.characters(blacklist_categories=('Cs',), blacklist_characters='"\\\n\r'))
+        strat = st.tuples(st.lists(st.text(alphabet, min_size=0, max_size=24), min_size=1, max_size=10), st.sampled_from([2, 3, 4, 8]))
+
+        def chk_raw(v):
+            texts, ws = v
+            if stats.evaluations % 200 == 0:
+                stats.sample({'kind': 'rawtext', 'texts': texts[:3], 'ws': ws})
+            m = check_raw_text(stats, texts, ws)
+            return ('rawtext', m) if m else None
+
+        search(strat, chk_raw, seed=derive_seed(seed, 'C13', desc), max_examples=120 if tier == 'quick' else 1500, stats=stats,
+               to_case=lambda v, m: {'kind': 'rawtext', 'value': [v[0], v[1]], 'message': m})
     elif kind == 'chars':
         for ws in (2, 3):
             for style in ('hex', 'named', 'raw'):
@@ -370,6 +457,10 @@ def replay(case):
     v = case['value']
     if case['kind'] == 'strings':
         return check_strings(st_, [bytes.fromhex(s) for s in v[0]], v[1], v[2])
+    if case['kind'] == 'rawtext':
+        return check_raw_text(st_, v[0], v[1])
+    if case['kind'] == 'rawchars':
+        return check_raw_chars(st_, v[0], v[1])
     if case['kind'] == 'chars':
         return check_chars(st_, list(range(256)) if v[0] == 'hex' else list(range(128)), v[0], v[1])
     if case['kind'] == 'arrays':
